@@ -252,6 +252,7 @@ type Op struct {
 	Err   string `json:"err,omitempty"`
 	Mut   bool   `json:"mut,omitempty"`
 	Fault bool   `json:"fault,omitempty"`
+	RO    bool   `json:"ro,omitempty"` // the fault is "this file is read-only"
 }
 
 type CallEvent struct {
